@@ -8,10 +8,13 @@ from harness.framework import Suite
 
 PID = "C07"
 TRANSLATE_ALGO = ["AlgoNode", "AlgoSort", "AlgoRedirect"]   # regenerated on every run from tree_utils.py (redirect_tree, _sort_tree), tree.py / node.py (node handles)
-LEAN_MODS = ["SwcVerif.Props.C07", "SwcVerif.Props.C07Cat"]
+LEAN_MODS = ["SwcVerif.Props.C07", "SwcVerif.Props.C07Cat", "SwcVerif.Props.C07Gen"]
 THEOREMS = [
     "C07.rootPath_spec", "C07.redirect_pids", "C07.redirect_edges", "C07.redirect_root", "C07.redirect_types", "C07.redirect_at_root",
     "C07.translate_coincides", "C07.cat_separate", "C07.cat_merged",
+    "RefineRedirect.node_parent_spec", "RefineRedirect.while_path", "RefineRedirect.for2_loop", "RefineRedirect.sortTree_refines",
+    "RefineRedirect.redirect_core", "C07.generated_parent", "C07.generated_redirect_eq_model", "C07.generated_redirect_root",
+    "C07.generated_redirect_sorted", "C07.generated_redirect_sorted_eq_model",
     "C07.second_wfr", "C07.cat_separate_wfr", "C07.cat_separate_sorted", "Relabel.isTreeTable_map", "C07.sorted_wf_gen", "C07.cat_merged_sorted",
 ]
 TRUSTED = ["hand-written models Model/Redirect.lean of redirect_tree / cat_tree (tied by the c07.redirect and c07.cat correspondence: parents, node identity, "
